@@ -3,7 +3,7 @@ From Coq Require Import String List Bool Arith.
 Local Open Scope string_scope.
 Local Open Scope list_scope.
 Import ListNotations.
-Require Import Kinds Automaton AutoFacts ErrorFacts TableFacts PyStr Line Matcher Builder Pipeline PipelineErrors Table Siblings.
+Require Import Kinds Automaton AutoFacts ErrorFacts TableFacts PyStr Line Matcher Builder Pipeline PipelineErrors Table Siblings StopFirst.
 
 (* identical messages are reported once; parsing stops after the eleventh error; a composite
    exception is never empty; a normal return means no error was recorded *)
@@ -65,3 +65,17 @@ Theorem C14_recovery_step : forall stop s t c x t' c1,
                (fun _ c3 => Ok (s_id x) c3)).
 Proof. exact unexpected_stays. Qed.
 Print Assumptions C14_recovery_step.
+
+(* stop-at-first-error mode raises precisely the first error that collecting mode lists: every source
+   text, any matcher / builder state (the two runs coincide up to the first error; the collecting run
+   only ever appends to its list) *)
+Theorem C14_stop_first : forall m b src es m1 b1 n, parse_source false m b src = PErrs es m1 b1 n ->
+  exists e l m2 b2 n2, es = e :: l /\ parse_source true m b src = PErr1 e m2 b2 n2.
+Proof. exact source_stop_first. Qed.
+Print Assumptions C14_stop_first.
+
+(* ... and accepts exactly the same documents, with the same result *)
+Theorem C14_stop_accepts : forall m b src d m1 b1 n, parse_source true m b src = POk d m1 b1 n ->
+  parse_source false m b src = POk d m1 b1 n.
+Proof. exact source_stop_accepts. Qed.
+Print Assumptions C14_stop_accepts.
